@@ -12,6 +12,7 @@ pub mod c08;
 pub mod c12;
 pub mod c16;
 pub mod c19;
+pub mod c20;
 
 pub fn dispatch_check(id: &str, tier: Tier, seed: u64) -> i32 {
     match id {
@@ -25,6 +26,7 @@ pub fn dispatch_check(id: &str, tier: Tier, seed: u64) -> i32 {
         "C12" => run_check(&c12::C12, tier, seed),
         "C16" => run_check(&c16::C16, tier, seed),
         "C19" => run_check(&c19::C19, tier, seed),
+        "C20" => run_check(&c20::C20, tier, seed),
         _ => {
             eprintln!("harness error: unknown property {id}");
             2
@@ -44,6 +46,7 @@ pub fn dispatch_replay(id: &str, file: &str) -> i32 {
         "C12" => run_replay(&c12::C12, file),
         "C16" => run_replay(&c16::C16, file),
         "C19" => run_replay(&c19::C19, file),
+        "C20" => run_replay(&c20::C20, file),
         _ => {
             eprintln!("harness error: unknown property {id}");
             2
